@@ -696,6 +696,72 @@ def check_literals(ctx, prog, roles, cfgname):
     return n
 
 
+R9 = "C10.E9.line-ending-is-consumed-cr-first"
+R10 = "C10.E10.lstrip-consults-the-line-start-gate-everywhere"
+
+
+def newline_tests(fn):
+    """[(block, character)]: tests of a text / byte against one newline character whose true side consumes it"""
+    out = []
+    for c in fn.calls():
+        chars = set()
+        if c.name in (STR + "strip_prefix", STR + "starts_with") and len(c.args) == 2:
+            chars = const_chars(fn, c.args[1])
+        elif c.name.endswith("::eq") and len(c.args) == 2:
+            chars = const_chars(fn, c.args[0]) | const_chars(fn, c.args[1])
+        if len(chars) == 1 and chars <= {10, 13}:
+            out.append((c.bb, next(iter(chars))))
+    return out
+
+
+def check_crlf_order(ctx, prog, roles, cfgname):
+    """E9: a line ends in CR LF, LF or CR.  Code that consumes one line ending with two optional steps has to take the
+    carriage return first: the other order eats only the CR of a CR LF pair and leaves a stray LF in the output
+    (the property holds for every line-ending style).  Siblings: the trim_blocks skipper, the raw block, the line-statement
+    end."""
+    tag = "" if cfgname == "MAX" else "[%s]" % cfgname
+    n = 0
+    cands = set(roles.nlskip) | set(roles.lineend)
+    for f in roles.fns:
+        if any(a.cls == "SKIPNL" and a.what == "slice-after-newline" for a in actions_of(roles, prog, f)):
+            cands.add(f.path)
+    for p in sorted(cands):
+        f = prog.fn(p)
+        ts = newline_tests(f)
+        crs = [bb for bb, ch in ts if ch == 13]
+        lfs = [bb for bb, ch in ts if ch == 10]
+        if not crs or not lfs:
+            continue
+        n += 1
+        # no LF test is followed by a CR test
+        bad = [(a, b) for a in lfs for b in crs if a != b and b in cfg.reach_from(f, a) and a not in cfg.reach_from(f, b)]
+        ctx.ob(R9, "%s%s" % (p.replace(LEX, ""), tag), not bad,
+               "a line ending is consumed as optional CR, then optional LF; here an LF test comes before a CR test: `\\r\\n` "
+               "loses only its `\\r`" if bad else "CR is tested before LF", f.where(lfs[0]))
+    return n
+
+
+def check_lstrip_gate(ctx, prog, roles, per_fn, cfgname):
+    """E10 (sibling agreement): whether a tag stands at the start of a line is decided by the gate function, which looks at
+    the text in front of the tag.  Where one lstrip site asks it, all do: the lstrip helper alone cannot know what
+    precedes the piece of text it is given (`x{% raw %}   {% endraw %}` lost its spaces, `x{% if %}   {% endif %}` kept
+    them)."""
+    tag = "" if cfgname == "MAX" else "[%s]" % cfgname
+    sites = []
+    for f in roles.fns:
+        for a in per_fn.get(f.path, []):
+            if a.cls == "LSTRIP":
+                g = Guard(roles, prog, f, a.bb)
+                sites.append((f, a, bool(g.gate)))
+    if not any(gated for _, _, gated in sites):
+        return 0
+    for f, a, gated in sites:
+        ctx.ob(R10, a.key() + tag, gated,
+               "this lstrip is not behind the line-start gate (%s) that the other site asks: whitespace is stripped although "
+               "the tag does not start its line" % ", ".join(x.replace(LEX, "") for x in roles.gates), f.where(a.bb))
+    return len(sites)
+
+
 def run(ctx):
     ctx.explain("C10 (partial): the wiring of the whitespace rules in the lexer.  Every operation of "
                 "minijinja::compiler::lexer that shortens template text (str::trim*, the whitespace skipper, the lstrip "
@@ -720,6 +786,8 @@ def run(ctx):
         nn = check_nlskip(ctx, prog, roles, cfgname)
         nf = check_flag(ctx, prog, roles, cfgname)
         nm = check_marker_args(ctx, prog, roles, cfgname)
+        n9 = check_crlf_order(ctx, prog, roles, cfgname)
+        n10 = check_lstrip_gate(ctx, prog, roles, per_fn, cfgname)
         if cfgname == "MAX":
             check_literals(ctx, prog, roles, cfgname)
             # floors: numbers counted on the tree (a rule that finds nothing passes vacuously)
@@ -730,4 +798,6 @@ def run(ctx):
             ctx.floor("C10 newline-skipper advances", nn, 1)
             ctx.floor("C10 pending-trim consumers", nf, 1)
             ctx.floor("C10 marker arguments", nm, 2)
+            ctx.floor("C10 line-ending consumers", n9, 2)
+            ctx.floor("C10 lstrip sites", n10, 2)
     ctx.assume("std semantics of str::trim*, starts_with, ends_with; the Whitespace enum is the decoded marker ('-' Remove, '+' Preserve)")
